@@ -48,22 +48,27 @@ theorem size_obligations :
 
 /-! ## TCP relay (`Bidirectional`) -/
 
-/-- **Main TCP theorem.** For all scripts of both sockets and EVERY schedule `σ` — any interleaving
-of the two goroutines, any order of half-close / close / error on either side, Writes that stay in
-progress on a slow sink (holding a reference to the relay's copy buffer) while the other direction
-runs — followed by the completion of the pending Writes and any uninterrupted tail `τ` in which each
-goroutine gets enough turns: the relay returns, each side has received a prefix of the other side's
-bytes in order, and all of them unless that side itself refused a Write. -/
-theorem C12_tcp_fair (A B : EP) (σ τ : List TTok) (hτ : plainT τ)
-    (ha : stepsFor A.reads ≤ τ.count .a) (hb : stepsFor B.reads ≤ τ.count .b) :
-    holdsTcp A B (tcpObs A B (tcpRun A B (σ ++ [.ax, .bx] ++ τ))) = true :=
-  holdsTcp_of A B _ (tcpRun_inv A B _) (tcpRun_returned A B σ τ hτ ha hb)
+/-- **Main TCP theorem.** For all scripts of both sockets — any payload and chunking, ending in EOF, in an
+ERROR (alone or fused with the last chunk), with refused Writes, full close, or PASSIVE (a peer that ends
+only after it has been told that the other direction is over) —, all endpoint kinds, and EVERY schedule `σ`
+(any interleaving of the two goroutines, Writes that stay in progress on a slow sink) followed by the
+completion of the run: the relay returns, each side has received a prefix of the other side's bytes in
+order, and all of them unless that side itself refused a Write. Hypothesis `TcpWF`: a passive peer can be
+told (its object implements `CloseWrite`) and not both peers are passive. In particular: when one side
+FAILS while the other is passive, the relay still signals the end to the passive side and returns. -/
+theorem C12_tcp (A B : EP) (hwf : TcpWF A B) (σ : List TTok) :
+    holdsTcp A B (tcpObs A B (tcpRun A B (tcpComplete A B σ))) = true :=
+  holdsTcp_of A B _ (tcpRun_inv A B _) (tcpRun_returned A B hwf σ)
 
-/-- The same for the run the driver executes: an arbitrary schedule prefix, then the fixed drain order. -/
-theorem C12_tcp (A B : EP) (σ : List TTok) :
-    holdsTcp A B (tcpObs A B (tcpRun A B (tcpComplete A B σ))) = true := by
-  rw [tcpComplete_eq]
-  exact C12_tcp_fair A B σ _ (drain_plain _ _) (drain_counts _ _).1 (drain_counts _ _).2
+/-- **The end of a direction is signalled whatever its cause**: in every reachable state, as soon as A→B
+has left its loop — clean EOF, read error, refused write alike — the half-close has been issued on B
+(and reaches the transport iff B implements `CloseWrite`); symmetrically for B→A. -/
+theorem C12_tcp_end_is_signalled (A B : EP) (σ : List TTok) :
+    ((tcpRun A B σ).toldB B = ((tcpRun A B σ).ab.done && tryCloseWrite B.kind)) ∧
+    ((tcpRun A B σ).toldA A = ((tcpRun A B σ).ba.done && tryCloseWrite A.kind)) ∧
+    (∀ e, (tcpRun A B σ).ab.done = true → (tcpRun A B σ).ab.err = e → B.kind = .cw → (tcpRun A B σ).toldB B = true) := by
+  refine ⟨rfl, rfl, fun e hd _ hk => ?_⟩
+  simp [TcpSt.toldB, hd, hk, tryCloseWrite]
 
 /-- **In order, at every moment**: after any schedule whatsoever (fair or not, finished or not, Writes
 in progress or not) what each side has received is a prefix of what the other side sent. -/
@@ -71,13 +76,11 @@ theorem C12_tcp_in_order_always (A B : EP) (σ : List TTok) :
     (tcpRun A B σ).ab.delivered <+: A.reads.flatten ∧ (tcpRun A B σ).ba.delivered <+: B.reads.flatten :=
   ⟨(tcpRun_inv A B σ).ab.pre, (tcpRun_inv A B σ).ba.pre⟩
 
-/-- **Returns exactly when both directions have finished** (`wg.Wait`), and both do finish once pending
-Writes complete and each goroutine gets its turns. -/
-theorem C12_tcp_returns (A B : EP) (σ τ : List TTok) :
+/-- **Returns exactly when both directions have finished** (`wg.Wait`), and both do finish after every schedule. -/
+theorem C12_tcp_returns (A B : EP) (σ : List TTok) :
     ((tcpRun A B σ).returned = true ↔ (tcpRun A B σ).ab.done = true ∧ (tcpRun A B σ).ba.done = true) ∧
-    (plainT τ → stepsFor A.reads ≤ τ.count .a → stepsFor B.reads ≤ τ.count .b →
-      (tcpRun A B (σ ++ [.ax, .bx] ++ τ)).returned = true) :=
-  ⟨by simp [TcpSt.returned], tcpRun_returned A B σ τ⟩
+    (TcpWF A B → (tcpRun A B (tcpComplete A B σ)).returned = true) :=
+  ⟨by simp [TcpSt.returned], fun hwf => tcpRun_returned A B hwf σ⟩
 
 /-- **Half-close does not stop the reverse direction**, for EVERY kind of endpoint object (`A.kind`, `B.kind`
 are arbitrary): in any state in which A→B has finished (A reached EOF or failed; `tryCloseWrite(B)` was
@@ -88,8 +91,9 @@ theorem C12_tcp_reverse_continues (A B : EP) (s : TcpSt) (c : Bytes) (cs : List 
     (hne : c.isEmpty = false) (hle : c.length ≤ cloudconstants.CopyBufferSize)
     (hacc : sinkRefuses A s.aSeen s.ba.nw = false) :
     (tcpStep A B s .b).ba.delivered = s.ba.delivered ++ c ∧ (tcpStep A B s .b).ab = s.ab := by
-  refine ⟨?_, by simp [tcpStep, hq]⟩
-  simp only [tcpStep, hq, Option.isSome_none, Bool.false_eq_true, if_false, dirStep, hba, hp, rdNext, hle, if_true, hne, hacc]
+  have hnb : blockedRead B s.ba (s.toldB B) = false := by simp [blockedRead, hp]
+  refine ⟨?_, by simp [tcpStep, hq, hnb]⟩
+  simp only [tcpStep, hq, hnb, Option.isSome_none, Bool.or_self, Bool.false_eq_true, if_false, dirStep, hba, hp, rdNext, hle, if_true, hne, hacc]
   split <;> rfl
 
 /-- **What `tryCloseWrite` does, per kind**: a half-close reaches socket B exactly when A→B has finished and
@@ -115,26 +119,35 @@ theorem skel_closeWrite : Gen.Skel.tryCloseWrite = ["tcpConn.CloseWrite", "cw.Cl
 /-- **A slow Write does not stop the other direction either**: while A→B is blocked inside a Write on B
 (the sink holds a reference to A→B's copy buffer), every B→A step runs exactly as if nothing were
 pending, the pending Write is unaffected, and when it completes A→B continues with the state it had. -/
-theorem C12_tcp_slow_write (A B : EP) (s : TcpSt) (d : Dir) (hh : s.abHeld = some d) (hq : s.baHeld = none) :
+theorem C12_tcp_slow_write (A B : EP) (s : TcpSt) (d : Dir) (hh : s.abHeld = some d) (hq : s.baHeld = none)
+    (hnb : blockedRead B s.ba (s.toldB B) = false) :
     (tcpStep A B s .b).ba = dirStep B A s.aSeen s.ba ∧ (tcpStep A B s .b).abHeld = some d ∧
     (tcpStep A B s .b).ab = s.ab ∧ tcpStep A B s .a = s ∧ (tcpStep A B s .ax).ab = d := by
-  simp [tcpStep, hh, hq]
+  simp [tcpStep, hh, hq, hnb]
 
 /-- Without refused writes every byte arrives, in both directions, after every schedule. -/
-theorem C12_tcp_delivers_all (A B : EP) (σ : List TTok)
+theorem C12_tcp_delivers_all (A B : EP) (hwf : TcpWF A B) (σ : List TTok)
     (hwB : (tcpRun A B (tcpComplete A B σ)).ab.wfEnv = false) (hwA : (tcpRun A B (tcpComplete A B σ)).ba.wfEnv = false) :
     (tcpRun A B (tcpComplete A B σ)).ab.delivered = A.reads.flatten ∧
     (tcpRun A B (tcpComplete A B σ)).ba.delivered = B.reads.flatten := by
   have inv := tcpRun_inv A B (tcpComplete A B σ)
   have hd : (tcpRun A B (tcpComplete A B σ)).ab.done = true ∧ (tcpRun A B (tcpComplete A B σ)).ba.done = true := by
-    have := tcpRun_returned A B σ _ (drain_plain (stepsFor A.reads) (stepsFor B.reads)) (drain_counts _ _).1 (drain_counts _ _).2
-    rw [← tcpComplete_eq] at this
-    simpa [TcpSt.returned] using this
+    simpa [TcpSt.returned] using tcpRun_returned A B hwf σ
   have f1 := inv.ab.full hwB
   have f2 := inv.ba.full hwA
   rw [inv.ab.fin hd.1 hwB] at f1
   rw [inv.ba.fin hd.2 hwA] at f2
   exact ⟨by simpa using f1, by simpa using f2⟩
+
+/-- The honest limit of a transport without half-close: a passive peer behind a wrapper kind (`same`: how the
+tunnel side is built in production) can only be released by the final `Close`, which waits for both
+directions — with such a peer the relay does not return (outside `TcpWF`; model witness). -/
+theorem C12_tcp_passive_peer_needs_halfclose_witness :
+    (tcpRun ⟨[[1]], .eof, false, none, false, .cw⟩ ⟨[], .hold, false, none, false, .same⟩
+      (tcpComplete ⟨[[1]], .eof, false, none, false, .cw⟩ ⟨[], .hold, false, none, false, .same⟩ [])).returned = false ∧
+    (tcpRun ⟨[[1]], .eof, false, none, false, .cw⟩ ⟨[], .hold, false, none, false, .cw⟩
+      (tcpComplete ⟨[[1]], .eof, false, none, false, .cw⟩ ⟨[], .hold, false, none, false, .cw⟩ [])).returned = true := by
+  decide
 
 /-! ## UDP relay (`UDP`) -/
 
@@ -163,7 +176,7 @@ theorem C12_udp_terminates (c : UdpCase) (hwf : ¬ (c.utail = .hold ∧ c.ttail 
   have h := udp_returned c hwf σ
   have hd : (udpRun .repaired c (udpComplete c σ)).dec.done = true := by
     have := h.1; simp only [UdpSt.returned, Bool.and_eq_true] at this; exact this.2
-  exact ⟨h.1, (h.2.dec.fin ((Dec.done_iff _).mp hd)).symm⟩
+  exact ⟨h.1, (h.2.1.dec.fin ((Dec.done_iff _).mp hd)).symm⟩
 
 /-- **Main UDP theorem.** For all datagram/tick sequences on the UDP side (the flush schedule), all
 tunnel streams that are the encoding of well-formed datagrams cut at ANY offset (or followed by
@@ -178,7 +191,31 @@ theorem C12_udp (sc : UdpSpecCase) (chunks : List Bytes) (hflat : chunks.flatten
     holdsUdp sc (udpObs (udpRun .repaired ⟨sc.uevs, sc.utail, chunks, sc.ttail, sc.tfused⟩
       (udpComplete ⟨sc.uevs, sc.utail, chunks, sc.ttail, sc.tfused⟩ σ))) = true := by
   have h := udp_returned ⟨sc.uevs, sc.utail, chunks, sc.ttail, sc.tfused⟩ hwf σ
-  exact holdsUdp_of sc chunks hflat _ h.2 h.1
+  exact holdsUdp_of sc chunks hflat _ h.2.1 h.1
+
+/-- **Asynchronous local socket** (`mapping.UDPVirtualConn`, the `localConn` that `tunnel.runDataCopy` hands to
+`iocopy.UDP`): its `Write` queues a private copy and a send loop delivers it later. For all the inputs of
+`C12_udp` and EVERY schedule that additionally delays the sends arbitrarily against the relay's further reads
+and buffer compactions (tokens `s`), the local application receives exactly the datagrams complete before the
+cut — same boundaries, contents, order. -/
+theorem C12_udp_async_socket (sc : UdpSpecCase) (chunks : List Bytes) (hflat : chunks.flatten = sc.stream)
+    (hwf : ¬ (sc.utail = .hold ∧ sc.ttail = .hold)) (σ : List UTok) :
+    holdsUdp sc (udpObsV (udpRun .repaired ⟨sc.uevs, sc.utail, chunks, sc.ttail, sc.tfused⟩
+      (udpComplete ⟨sc.uevs, sc.utail, chunks, sc.ttail, sc.tfused⟩ σ))) = true := by
+  have h := udp_returned ⟨sc.uevs, sc.utail, chunks, sc.ttail, sc.tfused⟩ hwf σ
+  exact holdsUdpV_of sc chunks hflat _ h.2.1 h.1 h.2.2
+
+/-- What has been sent is, at every moment of every run, a prefix of what the relay wrote, unaffected by
+anything the relay does to its read buffer afterwards: sends never change `dec.out`, the relay never changes
+what was queued. In the code: `UDPVirtualConn.Write` copies (`make` + `copy`) before it queues — pinned here. -/
+theorem C12_udp_async_queue_is_private (c : UdpCase) (σ : List UTok) :
+    (udpObsV (udpRun .repaired c σ)).udp <+: (udpRun .repaired c σ).dec.out ∧
+    (udpStep .repaired c (udpRun .repaired c σ) .s).dec = (udpRun .repaired c σ).dec ∧
+    Gen.Skel.UDPVirtualConn_Write = ["make", "copy", "updateLastActive"] ∧
+    Gen.Skel.UDPVirtualConn_writeLoop = ["listener.WriteTo"] := by
+  refine ⟨List.take_prefix _ _, ?_, by decide, by decide⟩
+  simp only [udpStep]
+  split <;> rfl
 
 /-- The tunnel stream never depends on where the flush ticker fired, on batch boundaries or on how
 long a Write took: at any moment of any run, bytes delivered ++ batch ++ (record of a datagram the
@@ -234,6 +271,12 @@ theorem C12_udp_write_region_stable (c : UdpCase) (σ : List UTok) (w : Wip)
     cases s.decHeld with
     | none => exact ⟨rfl, rfl, hw⟩
     | some d => exact ⟨rfl, rfl, hw⟩
+  | s =>
+    simp only [udpStep]
+    split
+    · exact ⟨rfl, rfl, hw⟩
+    · exact ⟨rfl, rfl, hw⟩
+  | sa => exact ⟨rfl, rfl, hw⟩
 
 /-- **The batch buffer never overflows**: between events the batch is at most half the buffer, so
 the next maximal record (2 + 65536 bytes) always fits — `batchBuf[batchPos+2:]` stays in range —
@@ -345,6 +388,19 @@ example :
     (tcpObs A B (tcpRun A B (tcpComplete A B [.ah, .b, .ax, .a, .b, .b]))).cwB = false := by
   decide
 
+/-- One side FAILS (read error fused with its last chunk) while the other is passive and still has data:
+`TcpWF` holds, the relay returns, everything arrives in both directions and the passive side was told. -/
+example :
+    let A : EP := ⟨[[1], [2]], .err, true, none, false, .same⟩
+    let B : EP := ⟨[[7, 8]], .hold, false, none, false, .cw⟩
+    TcpWF A B ∧
+    (tcpObs A B (tcpRun A B (tcpComplete A B [.a, .bh, .a, .bx]))).ret = true ∧
+    (tcpObs A B (tcpRun A B (tcpComplete A B [.a, .bh, .a, .bx]))).toB = [1, 2] ∧
+    (tcpObs A B (tcpRun A B (tcpComplete A B [.a, .bh, .a, .bx]))).toA = [7, 8] ∧
+    (tcpObs A B (tcpRun A B (tcpComplete A B [.a, .bh, .a, .bx]))).serr = .read ∧
+    (tcpObs A B (tcpRun A B (tcpComplete A B [.a, .bh, .a, .bx]))).cwB = true := by
+  refine ⟨⟨by decide, by decide, by decide⟩, by decide, by decide, by decide, by decide, by decide⟩
+
 /-- `holdsTcp` is not trivially true: an observation that lost a byte fails it. -/
 example : holdsTcp ⟨[[1, 2]], .eof, false, none, false, .cw⟩ ⟨[], .eof, false, none, false, .same⟩
     ⟨true, [1], [], false, false, false, true, true, true, 1, 0, .none, .none⟩ = false := by decide
@@ -355,6 +411,13 @@ example :
     recvAll 12 ⟨[[0, 1, 97, 0, 0, 0, 2, 98], [99]], .eof⟩ = ⟨[[97], [], [98, 99]], .len⟩ ∧
     [[0, 1, 97, 0, 0, 0, 2, 98], [99]].flatten = (([[97], [], [98, 99]] : List Bytes).map sendPacket).flatten.flatten.take 100 ∧
     holdsS5 [[97], [], [98, 99]] 100 [0, 1, 97, 0, 0, 0, 2, 98, 99] ⟨[[97]], .len⟩ = false := by decide
+
+/-- Asynchronous socket: the first read ends inside the second record (so the window is compacted over the bytes
+just handed to `Write`), the sends happen only after the next read: both datagrams arrive intact. -/
+example :
+    (udpObsV (udpRun .repaired ⟨[], .hold, [[0, 1, 65, 0, 2, 66], [67]], .eof, false⟩
+      (udpComplete ⟨[], .hold, [[0, 1, 65, 0, 2, 66], [67]], .eof, false⟩ [.t, .t, .s, .s]))).udp = [[65], [66, 67]] ∧
+    (udpObsV (udpRun .repaired ⟨[], .hold, [[0, 1, 65, 0, 2, 66], [67]], .eof, false⟩ [.t, .t, .s])).udp = [[65]] := by decide
 
 /-- `holdsUdp` is not trivially true: a relay that dropped the datagram before the cut fails it. -/
 example : holdsUdp ⟨[], .hold, [[97]], 3, [], .eof, false⟩ ⟨true, [], [], 0, false, false, 0, 0⟩ = false := by decide
